@@ -351,10 +351,10 @@ class Fn:
         def scan(bid, i0, facts):
             evs = self.blocks[bid]['ev']
             for e in evs[i0:]:
-                if is_blocker and is_blocker(e):
-                    return 'blocked', e
                 if is_target(e):
                     return 'hit', e
+                if is_blocker and is_blocker(e):
+                    return 'blocked', e
                 if facts:
                     _apply_kills(self, e, facts, atoms)
                     # constants assigned on this path: kill, then learn `lhs == C`
